@@ -34,6 +34,8 @@ def injection_points(kind):
 def gen_content(rng, kind, R):
     if kind == "composeinfo":
         d = DC.gen_ci(rng, R)["desc"]
+        while not d[3]:                                 # the variant validators must be reachable
+            d = DC.gen_ci(rng, R)["desc"]
         d[1]["is_layered"] = True                       # so that the base product is reached
         d[2] = {"name": "Base", "version": "7", "short": "RHEL", "type": "ga"}
         return d
@@ -127,6 +129,8 @@ def generate(rng):
         content = gen_content(rng, kind, R)
         cases.append({"kind": kind, "content": content, "pre": "hardlink", "inject": None})
         cases.append({"kind": kind, "content": content, "pre": "symlink", "inject": None})
+        cases.append({"kind": kind, "content": content, "pre": True, "inject": None, "dest": "pathlib"})     # the destination as a pathlib.Path
+        cases.append({"kind": kind, "content": content, "pre": False, "inject": None, "dest": "pathlib"})
         for pre in (True, False):
             cases.append({"kind": kind, "content": content, "pre": pre, "inject": None})
             cases.append({"kind": kind, "content": content, "pre": pre, "inject": "unencodable"})
@@ -169,7 +173,11 @@ def impl(case):
             restore = (klass, meth, orig)
         try:
             try:
-                obj.dump(path)
+                if case.get("dest") == "pathlib":
+                    import pathlib
+                    obj.dump(pathlib.Path(path))
+                else:
+                    obj.dump(path)
                 outcome = "no-error"
             except EXC as e:
                 outcome = type(e).__name__
